@@ -1164,7 +1164,14 @@ class SymEx:
             body = res[0][1] if len(res) == 1 else ('havoc', 'lambda', self.site(e))
             lam = ('lambda', len(ps), body)
             # the closure itself, for when the lambda is CALLED (its effects then belong to the calling path)
-            self.closures[id(lam)] = (lam, e, dict(st.env), self.fn)
+            cenv = dict(st.env)
+            dflt = {}
+            for a_, d_ in zip(e.args.args[len(e.args.args) - len(e.args.defaults):], e.args.defaults):
+                r_ = self.ev(d_, State(dict(st.env), dict(st.heap)))
+                if len(r_) == 1:
+                    dflt[a_.arg] = r_[0][1]         # lambda x, k=k: ...  binds k NOW (the early-binding idiom)
+            cenv['@defaults'] = dflt
+            self.closures[id(lam)] = (lam, e, cenv, self.fn)
             return [(st, lam)]
         if isinstance(e, ast.JoinedStr):
             parts = []
@@ -1235,7 +1242,7 @@ class SymEx:
                 return ('ite', x[1], l, r)
         if o in ('is', 'is not', '==', '!=') and NONE in (a, b):
             other = b if a == NONE else a
-            if other[0] in ('lambda', 'fn', 'nt', 'dict', 'list', 'tuple', 'set', 'str', 'num', 'new', 'comp', 'localfn', 'fmt') or \
+            if other[0] in ('lambda', 'fn', 'nt', 'dict', 'list', 'tuple', 'set', 'str', 'num', 'new', 'comp', 'localfn', 'fmt', 'rat', 'cmp', 'not', 'and', 'or') or \
                     (other[0] == 'const' and other[1] in ('True', 'False')):
                 return FALSE if o in ('is', '==') else TRUE          # a function, a literal or a fresh object is not None
             if other[0] == 'call' and other[1] == ('ext', 'GET') and len(other[2]) == 2:
@@ -1412,8 +1419,66 @@ class SymEx:
         finally:
             self.in_comp -= 1
 
+    def _comp_over_constants(self, e, st, kind):
+        """A comprehension with one generator over a constant iterable is evaluated row by row (exactly what Python does): element expressions may then
+        create lambdas, look tables up, etc.  Lambdas created in it close over the comprehension VARIABLE, which holds its last value once the
+        comprehension is finished (late binding) unless bound through a default argument."""
+        if len(e.generators) != 1 or any(isinstance(n, (ast.Yield, ast.YieldFrom, ast.NamedExpr)) for n in ast.walk(e)):
+            return None
+        g = e.generators[0]
+        r = self.ev(g.iter, State(dict(st.env), dict(st.heap), (), (), dict(st.decided)))
+        if len(r) != 1 or r[0][0].exc is not None:
+            return None
+        items = _const_items(r[0][1])
+        if items is None or not (1 <= len(items) <= 12):
+            return None
+        names = sorted(self._assigned_names([g.target]))
+        before = set(self.closures)
+        out = []
+        x = State(dict(st.env), dict(st.heap), (), (), dict(st.decided))
+        for item in items:
+            y = self.assign(g.target, item, x, e, silent=True)
+            keep = True
+            for c in g.ifs:
+                rr = self.ev(c, y)
+                if len(rr) != 1:
+                    return None
+                tv = truth(rr[0][1])
+                if tv is None:
+                    return None
+                keep = keep and tv
+            if not keep:
+                continue
+            if kind == 'dict':
+                rr = self.seq([e.key, e.value], y)
+                if len(rr) != 1 or rr[0][0].exc is not None:
+                    return None
+                out.append(('tuple', tuple(rr[0][1])))
+            else:
+                rr = self.ev(e.elt, y)
+                if len(rr) != 1 or rr[0][0].exc is not None:
+                    return None
+                out.append(rr[0][1])
+        last = self.assign(g.target, items[-1], x, e, silent=True)
+        for cid in set(self.closures) - before:
+            clo = self.closures[cid]
+            if clo[2] is not None:
+                for n in names:
+                    clo[2][n] = last.env[n]
+        if kind == 'dict':
+            d = {}
+            for o in out:
+                d[o[1][0]] = o[1][1]
+            return ('dict', tuple(d.items()))
+        if kind == 'set':
+            return ('set', tuple(dict.fromkeys(out)))
+        return ('list', tuple(out))
+
     def _comp1(self, e, st):
         kind = {ast.ListComp: 'list', ast.SetComp: 'set', ast.GeneratorExp: 'gen', ast.DictComp: 'dict'}[type(e)]
+        lit = self._comp_over_constants(e, st, kind) if not self.suppress else None
+        if lit is not None:
+            return [(st, lit)]
         x = State(dict(st.env), dict(st.heap), (), (), dict(st.decided))
         base = self.bv_depth
         gens = []
@@ -1793,6 +1858,8 @@ class SymEx:
                     return [(st, ('call', ('ext', 'INT'), (inner,), ()))]
                 args = _canon_reducer_args(('ext', name), args)
                 name, args, kws = _canon_ext_call(name, args, kws)
+                if name == 'IDENTITY':
+                    return [(st, args[0])]
                 res = ('call', ('ext', name), tuple(args), kws)
                 x = st.ev(Ev('call', callee=['ext:' + name], args=dict(enumerate(args)), site=site, fn=fn.qn, how=how, layer=0,
                              result=res, node=e, recv=None, kwargs=dict(kws)))
@@ -1912,16 +1979,22 @@ class SymEx:
             if clo is not None and clo[0] is fv and not self.suppress:
                 _, node, env, host = clo
                 ps = [a.arg for a in node.args.args]
-                if len(args) == len(ps) and not kwargs and not any(a[0] == 'starred' for a in args):
+                dflt = env.get('@defaults', {})
+                given = dict(zip(ps, args))
+                given.update({k_: v_ for k_, v_ in kwargs if k_ in ps})
+                for k_ in ps:
+                    if k_ not in given and k_ in dflt:
+                        given[k_] = dflt[k_]
+                if len(args) <= len(ps) and all(k_ in given for k_ in ps) and all(k_ in ps for k_, _ in kwargs) and not any(a[0] == 'starred' for a in args):
                     saved = st.env
                     y = st.copy()
-                    y.env = dict(env)
+                    y.env = {k_: v_ for k_, v_ in env.items() if k_ != '@defaults'}
                     # late binding: the closure sees the caller's current values of the variables it shares with its defining scope
                     if host is self.fn:
                         for k_, v_ in saved.items():
                             if k_ in y.env:
                                 y.env[k_] = v_
-                    y.env.update(dict(zip(ps, args)))
+                    y.env.update(given)
                     self.frames.append(host)
                     try:
                         res = self.ev(node.body, y)
@@ -2000,12 +2073,23 @@ class SymEx:
             for z in args[0][1]:
                 d_[z[1][0]] = z[1][1]
             return [(st, ('dict', tuple(d_.items())))]
+        if fv == ('ext', 'DICT') and len(args) == 1 and not kws and args[0][0] == 'comp' and args[0][1] in ('gen', 'list') and \
+                args[0][2][0] == 'tuple' and len(args[0][2][1]) == 2:
+            return [(st, ('comp', 'dict') + args[0][2:])]          # dict((k, v) for ...) is {k: v for ...}
+        if fv == ('ext', 'SUM') and len(args) == 2 and not kws and args[1] == ZERO:
+            args = args[:1]                                         # sum(xs, 0) is sum(xs)
+        if fv == ('ext', 'SUM') and len(args) == 1 and not kws and args[0][0] == 'call' and args[0][1] == ('meth', 'values') and len(args[0][2]) == 1 \
+                and args[0][2][0][0] == 'comp' and args[0][2][0][1] == 'dict' and args[0][2][0][2][0] == 'tuple':
+            dcomp = args[0][2][0]                                    # sum({k: v for ...}.values()) is sum(v for ...)  (keys distinct: one term per key)
+            args = [('comp', 'gen', dcomp[2][1][1], dcomp[3])]
         if fv == ('ext', 'DICT') and len(args) == 1 and not kws:
             dc = _dict_of_zip(args[0], self.bv_depth)
             if dc is not None:
                 return [(st, dc)]
         if fv[0] == 'ext':
             name, args, kws = _canon_ext_call(fv[1], args, kws)
+            if name == 'IDENTITY':
+                return [(st, args[0])]
             fv = ('ext', name)
             res = ('call', fv, tuple(args), kws)
         else:
@@ -2166,6 +2250,11 @@ def _dict_of_zip(z, base):
 def _canon_ext_call(name, args, kws):
     """math.isclose(x, 0, rel_tol=0, abs_tol=t) tests |x| <= t, and so does numpy.isclose(x, 0, atol=t) whatever rtol is: one form, ISCLOSE(x, 0[, atol=t]) (default t = 1e-08)"""
     from fractions import Fraction
+    if name == 'ROUND' and 1 <= len(args) <= 2 and not kws and all(a[0] == 'num' for a in args) and (len(args) == 1 or args[1][1].denominator == 1):
+        # round(<literal>, n) is a literal
+        v = round(float(args[0][1]), int(args[1][1])) if len(args) == 2 else round(float(args[0][1]))
+        if Fraction(str(v)) == args[0][1] or args[0][1].denominator == 1:
+            return 'IDENTITY', [num(v)], ()
     if name in ('ISCLOSE', 'MISCLOSE') and len(args) == 2 and args[1] == ZERO:
         k = dict(kws)
         dflt = ('num', Fraction('1e-08'))
@@ -2235,6 +2324,13 @@ def _table_like(n):
         return _table_like(n.left) and _table_like(n.right)
     if isinstance(n, ast.Call):
         return _table_like(n.func) and all(_table_like(a) for a in n.args) and all(_table_like(k.value) for k in n.keywords)
+    if isinstance(n, (ast.ListComp, ast.SetComp, ast.GeneratorExp, ast.DictComp)):
+        parts = ([n.key, n.value] if isinstance(n, ast.DictComp) else [n.elt]) + [g.iter for g in n.generators] + [c for g in n.generators for c in g.ifs]
+        return all(_table_like(p) for p in parts)
+    if isinstance(n, ast.Compare):
+        return _table_like(n.left) and all(_table_like(c) for c in n.comparators)
+    if isinstance(n, ast.Starred):
+        return _table_like(n.value)
     return False
 
 
